@@ -15,6 +15,7 @@ package props
 import (
 	"bytes"
 	"fmt"
+	"regexp"
 	"strconv"
 	"strings"
 	"testing"
@@ -297,6 +298,9 @@ func textSafe(ins []Instr) bool {
 	return true
 }
 
+var reAsmSym = regexp.MustCompile(`^[a-zA-Z][a-zA-Z0-9_]*$`)
+var reAsmSel = regexp.MustCompile(`^([a-zA-Z0-9]+|\*)$`)
+
 func checkC14(c C14Case) (o Outcome) {
 	ins := c.Prog
 	enc := vmEncodeAll(ins)
@@ -429,9 +433,12 @@ func checkC14(c C14Case) (o Outcome) {
 		// ... and where the assembler takes the listing, it writes the bytes the listing was
 		// made from (selector shapes of known finding F-C16-1 aside)
 		if e1 == nil && !bytes.Equal(a1.Bytes(), enc) {
+			// (only for listings that are assembly source: identifiers as symbols, letters and
+			// digits or the wildcard as selectors - any byte string is an encodable argument,
+			// and what the assembler makes of "RELOAD #" is not this property's subject)
 			bad := false
 			for _, in := range ins {
-				if knownBadSelector(string(in.Sel)) {
+				if knownBadSelector(string(in.Sel)) || (len(in.Sym) > 0 && !reAsmSym.MatchString(string(in.Sym))) || (len(in.Sel) > 0 && !reAsmSel.MatchString(string(in.Sel))) {
 					bad = true
 				}
 			}
